@@ -5,10 +5,12 @@
 package main
 
 import (
+	"bytes"
 	"fmt"
 	"os"
 	"sort"
 	"strings"
+	"unicode"
 	"unicode/utf8"
 
 	"github.com/gdamore/tcell/v2"
@@ -451,6 +453,61 @@ func envShapes(entries []common.Entry) {
 	}
 }
 
+// spellings: the usual spellings of the ISO 8859 parts in locale names (ISO8859-n, ISO-8859-n,
+// 8859-n) select the same character set: the screen comes up and writes a letter of the upper
+// half as the same byte.
+func spellings(entries []common.Entry) {
+	if *hc.Shard != 0 {
+		return
+	}
+	var ti *terminfo.Terminfo
+	for _, e := range entries {
+		if e.Name == "xterm-256color" {
+			ti = e.Ti
+		}
+	}
+	for _, part := range []int{1, 2, 3, 4, 5, 6, 7, 8, 9, 10, 13, 14, 15, 16} {
+		canon := fmt.Sprintf("ISO8859-%d", part)
+		enc := tcell.GetEncoding(canon)
+		if enc == nil {
+			continue
+		}
+		// a letter of the upper half of this part
+		var probe rune
+		var pb byte
+		for b := 0xf1; b >= 0xa1 && probe == 0; b-- {
+			out, err := enc.NewDecoder().Bytes([]byte{byte(b)})
+			if r, _ := utf8.DecodeRune(out); err == nil && r != utf8.RuneError && r >= 0xa0 && unicode.IsLetter(r) {
+				probe, pb = r, byte(b)
+			}
+		}
+		for _, sp := range []string{canon, fmt.Sprintf("ISO-8859-%d", part), fmt.Sprintf("8859-%d", part)} {
+			w.R.Evaluations++
+			w.AddDistinct(1)
+			os.Setenv("LC_ALL", "xx_XX."+sp)
+			os.Unsetenv("LC_CTYPE")
+			os.Unsetenv("LANG")
+			tty := common.NewFakeTty(vt.New(4, 1, enc, vt.Quirks{}), 4, 1)
+			c := *ti
+			s, err := tcell.NewTerminfoScreenFromTtyTerminfo(tty, &c)
+			if err == nil {
+				err = s.Init()
+			}
+			if err != nil {
+				w.Violation("locale-spelling:"+sp, fmt.Sprintf("LC_ALL=xx_XX.%s: the screen does not come up (%v), although xx_XX.%s does and names the same character set", sp, err, canon), map[string]interface{}{"locale": "xx_XX." + sp})
+				continue
+			}
+			s.SetContent(0, 0, probe, nil, tcell.StyleDefault)
+			s.Show()
+			if !bytes.Contains(bytes.Join(tty.Blocks, nil), []byte{pb}) || bytes.Contains(bytes.Join(tty.Blocks, nil), []byte(string(probe))) {
+				w.Violation("locale-spelling:"+sp, fmt.Sprintf("LC_ALL=xx_XX.%s: U+%04X is not written as the byte %#x of %s (output %q)", sp, probe, pb, canon, bytes.Join(tty.Blocks, nil)), map[string]interface{}{"locale": "xx_XX." + sp})
+			}
+			s.Fini()
+		}
+	}
+	os.Unsetenv("LC_ALL")
+}
+
 // acsAll: every database entry (not only the four class representatives) x three single-byte
 // charsets x every rune with a DEC special-graphics identity: the cell must show that glyph
 // if the description offers it (else fallback / '?'), nothing else may appear on the row, and
@@ -741,6 +798,7 @@ func main() {
 	sweep(entries)
 	acsAll(entries)
 	envShapes(entries)
+	spellings(entries)
 	histories(entries)
 	isolation(entries)
 	w.Finish()
